@@ -137,7 +137,7 @@ def scan_assumptions(text):
 
 REPLAY_BIN = os.path.join(WORK, 'replay-target', 'debug', 'cachelito-replay')
 UNIT_FLAVOUR = {'global_cache': 'global', 'thread_local_cache': 'thread', 'async_cache': 'async', 'scores': 'global', 'utils': 'global'}
-DYNAMIC_UNITS = ('registry', 'scores', 'utils', 'global_cache', 'thread_local_cache', 'async_cache', 'wrappers_global', 'wrappers_thread', 'wrappers_async', 'keys')
+DYNAMIC_UNITS = ('registry', 'scores', 'utils', 'global_cache', 'thread_local_cache', 'async_cache', 'wrappers_global', 'wrappers_thread', 'wrappers_async', 'wrappers_async_await', 'keys')
 
 
 def build_replay():
@@ -190,7 +190,7 @@ def witness_search(prop, unit_names, tier, seed, only_prop=True):
         if p.returncode == 1:
             w = [l for l in lines if l.startswith('WITNESS')]
             return dict(cmd='%s --history %s' % (REPLAY_BIN, out), history=out, line=w[0] if w else '', text=open(out).read() if os.path.exists(out) else '', stats=stats)
-    return dict(none=True, stats=stats, bound='%d random histories per configuration, <= 10 operations, 4 keys, limits {none,1,2,3}, ttl {none,2}, max_memory {none, 2 entries}' % iters)
+    return dict(none=True, stats=stats, bound='%d random histories per configuration, <= 10 operations, 4 keys, limits {none,1,2,3}, ttl {none,0,2}, max_memory {none, 2 entries}' % iters)
 
 
 def lock_check(kinds, prop):
@@ -535,6 +535,13 @@ def main(argv):
             if prop not in props and '*' not in props:
                 continue
             full = '%s/%s' % (unit_name, name)
+            owner_item = next((it for it in unit['items'] if it.get('label') and name.startswith(it['label'] + '::')), None)
+            if owner_item is not None and owner_item.get('arbitrate'):
+                # code that appeared after the contracts were written (e.g. a new key impl): "needs contract", the bounded search arbitrates
+                undecided.append("unit %s: %s is outside the verifier's reach after this change (new code without a contract of its own; obligation %s not discharged)" % (unit_name, owner_item['label'], name))
+                unreached.add(full)
+                obligations.setdefault(full, 'new code')
+                continue
             if vanished:
                 # a contracted helper disappeared (inlined / renamed): its callers lost the lemma their proof was built on, so a
                 # failed obligation in this unit is "needs contract", not a code defect -- the bounded search arbitrates
